@@ -156,6 +156,15 @@ def check_spec(spec: NetSpec, label, st: Stats, plan):
                 break
             compare(spec, got, clamp_next(ref, opts), f"numpy {sorted(opts)}", vlabel, dict(case, engine="numpy"), problems, st,
                     f"C11/numpy/{osig}")
+            # the same options given POSITIONALLY, in the documented order of Network.step
+            try:
+                st.inc("executions")
+                gotp, _, _ = np_step(spec, val, P, opts=od, positional=True)
+            except Exception as e:  # noqa: BLE001
+                problems.append((f"C11/exception/{exc_site(e)}/{type(e).__name__}", f"numpy {sorted(opts)} positionally: {exc_text(e)}", case))
+                break
+            compare(spec, gotp, clamp_next(ref, opts), f"numpy {sorted(opts)} given positionally", vlabel,
+                    dict(case, engine="numpy", positional=True), problems, st, f"C11/numpy-positional/{osig}")
         # compiled functions on all vectors
         for sym in plan["cs_sym"]:
             if sym == "MX" and len(opts) not in (1, 6):
